@@ -38,6 +38,40 @@ def generic_module(depth: int) -> str:
     return '\n'.join(lines)
 
 
+def shared_type_module() -> str:
+    """One symbol whose type tree holds the same type object several times: an alias used for several parameters, a
+    variable used twice in a tuple, a generic class instantiated with itself."""
+    return '''from typing import Generic, TypeAlias, TypeVar
+
+T = TypeVar('T')
+
+class Table(Generic[T]):
+	rows: T
+
+	def __init__(self, rows: T) -> None:
+		self.rows = rows
+
+Rows: TypeAlias = dict[str, list[int]]
+Tab: TypeAlias = Table[Rows]
+
+class Store:
+	def merge(self, left: Tab, right: Tab) -> Tab:
+		return left
+
+	def both(self, rows: Rows, more: Rows, n: int) -> tuple[Rows, Rows]:
+		return (rows, more)
+
+def twice(t: Table[Rows]) -> tuple[Table[Rows], Table[Rows]]:
+	pair = (t, t)
+	return pair
+
+def same(a: list[int], b: list[int]) -> dict[str, list[int]]:
+	xs = a
+	d = {'a': xs, 'b': xs}
+	return d
+'''
+
+
 def forward_module() -> str:
     """User generic + forward references (quoted) to a class defined later, in every position x container."""
     lines = ['from typing import Generic, TypeVar', '', "T = TypeVar('T')", '',
@@ -54,6 +88,32 @@ def forward_module() -> str:
     return '\n'.join(lines)
 
 
+FORWARD_BEFORE_TYPEVAR = '''from typing import Generic, TypeVar
+
+def make() -> 'Box[int]':
+	return Box(1)
+
+def unwrap(b: 'Box[str]') -> str:
+	return b.get()
+
+T = TypeVar('T')
+
+class Box(Generic[T]):
+	item: T
+
+	def __init__(self, item: T) -> None:
+		self.item = item
+
+	def get(self) -> T:
+		return self.item
+'''
+RECURSIVE_ALIAS = '''from typing import TypeAlias
+
+Json: TypeAlias = dict[str, 'Json']
+
+def depth(j: Json) -> int:
+	return 1
+'''
 FORWARD_USER = '''from fwd_mod import Early, Late, Ref, Holder_ref_Late, Holder_list_Late
 
 def find(ref: Ref[Late]) -> Early:
@@ -78,7 +138,9 @@ def value_of(depth: int) -> str:
 def module_sets(quick: bool):
     depth = 3 if quick else 5
     sets = [('gen-funcs', c08.PROGRAMS['funcs']), ('gen-classes', c08.PROGRAMS['classes']), ('gen-modules', c08.PROGRAMS['modules']),
-            ('gen-generics', {'gen_mod': generic_module(depth)}), ('gen-forward', {'fwd_mod': forward_module(), 'fwd_user': FORWARD_USER})]
+            ('gen-generics', {'gen_mod': generic_module(depth)}), ('gen-forward', {'fwd_mod': forward_module(), 'fwd_user': FORWARD_USER}),
+            ('gen-shared-types', {'shared_mod': shared_type_module()}),
+            ('gen-forward-generic-before-typevar', {'fwd2_mod': FORWARD_BEFORE_TYPEVAR}), ('gen-recursive-alias', {'rec_mod': RECURSIVE_ALIAS}), ('gen-empty', {'empty_mod': '# nothing\n'})]
     feat = list(pyprog.feature_programs(True))[:1 if quick else 3]
     for i, p in enumerate(feat):
         sets.append((f'gen-feat{i}', {f'feat_mod{i}': p.source}))
@@ -221,7 +283,7 @@ def judge_revision(session, name, sources, disk_modules, only=None):
         try:
             data = json.loads(json.dumps(db.to_json(ser, m)))
         except Exception as e:  # noqa
-            add(['export-raises', type(e).__name__], f'{type(e).__name__}: {str(e)[:200]}', m)
+            add(['export-raises', type(e).__name__] + ([name] if name.startswith('gen-') else []), f'{type(e).__name__}: {str(e)[:200]}', m)
             continue
         stats['modules'] += 1
         stats['symbols'] += len(before)
